@@ -101,7 +101,8 @@ def cases(tier, seed):
             yield {"n": n, "mode": mode, "req": req, "kind": kind,
                    "shuffle": shuffle, "const": const,
                    "resow": const.startswith("farmer")
-                   and (n + (req or 0)) % 3 == 0}
+                   and (n + (req or 0)) % 3 == 0,
+                   "again": (n + (req or 0)) % 4 == 1}
 
 
     # crops with more than 100 batches (three-digit ids, any internal window)
@@ -275,6 +276,48 @@ def check_case(case):
     if sizes and mode == "num_batches" and max(sizes) - min(sizes) > 1:
         vio.append((tag("balance"), "batch sizes differ by more than one: %r"
                     % sizes))
+    # ---- the crop is deleted and the same Crop object sown again; then a
+    # Crop rebuilt from disk (farmer un-pickled from the settings) sows the
+    # same work again: numbers and partition as the first time ---------------
+    if case.get("again"):
+        def verify(label, c_live):
+            c5 = xyz.Crop(name="c7", parent_dir=d)
+            if (c_live.num_batches, c5.num_batches, c5.num_sown_batches) != (
+                    B, B, B):
+                vio.append((tag(label + "-count"),
+                            "%s: the crop reports num_batches=%r (reloaded "
+                            "%r, sown files %r), expected %d" % (
+                                label, c_live.num_batches, c5.num_batches,
+                                c5.num_sown_batches, B)))
+                return
+            g5 = collections.Counter()
+            sz = []
+            for i in range(1, B + 1):
+                with xfn.CallLog() as log:
+                    grow(i, crop=c5, fn=f, verbosity=0)
+                g5.update(log.encs())
+                sz.append(len(log.calls))
+            if g5 != want or sorted(sz) != sorted(sizes):
+                vio.append((tag(label + "-partition"),
+                            "%s: batches hold %r, a direct run passes %r; "
+                            "sizes %r (first sow %r)" % (
+                                label, list((g5 - want).elements())[:2],
+                                list((want - g5).elements())[:2], sz, sizes)))
+
+        try:
+            crop.delete_all()
+            sow()
+            verify("deleted-and-sown-again", crop)
+            crop6 = xyz.Crop(name="c7", parent_dir=d)
+            keep = crop
+            crop = crop6
+            sow()
+            crop = keep
+            verify("sown-again-by-a-reloaded-crop", crop6)
+        except Exception as e:
+            vio.append((tag("again-raised:" + type(e).__name__),
+                        "sowing again after delete_all / through a reloaded "
+                        "Crop raised %r" % e))
     # ---- the farmer's stored constants are changed and the same Crop object
     # is sown again: the batches hold what a direct run passes *now* ---------
     if farmer and case.get("resow"):
